@@ -5,7 +5,8 @@ from vcheck import Case, hx, flist, parse_vals
 PID = "C11"
 EPS = 2.0 ** -53
 RULE = ("one case = one call (fmin | fmax | fpair | nm | nmd | nm1 with objective, start, step/tolerance), or a run of calls in one process on one or several "
-        "Minimization objects with 1-D calls in between (seq; non-trivial = at least two calls returned and 24 evaluations), or an outer call whose objective runs a "
+        "Minimization objects with 1-D calls in between, the vector arguments given by the caller or being public members of the objects (current_simplex, a row of it, y; "
+        "of the called object or another; by reference or copied) (seq; non-trivial = at least two calls returned and 24 evaluations), or an outer call whose objective runs a "
         "minimisation itself (nest; non-trivial like the outer call); non-trivial = a Nelder-Mead run with at least 12 "
         "objective evaluations after the initial simplex (such runs contain reflections, expansions and contractions; shrinks are rarer and are counted in the "
         "evidence's input distribution only through the traces), or a 1-D run with at least one downhill bracketing step beyond the first three evaluations and at least "
@@ -16,18 +17,23 @@ LEVEL_TEXT = ("Theorems (Coq, abstract number type with only the laws of a total
               "is not worse than either starting abscissa; Find_Maximum is Find_Minimum of -1.0*f (and over R its result is not below either starting value); Nelder-Mead keeps "
               "y[i] = f(simplex[i]) in every iteration, its best value never increases, and on return fmin = y[0] = f(returned point) = f(simplex[0]), y[0] <= every y[i] and "
               "<= f at every initial vertex; the two convenience overloads build the stated simplex (and reject mismatched lengths); a call on a Minimization object in ANY state "
-              "gives the answer of a fresh object, and so does every call of a run of calls on one object (call history: mpts, ndim, simplex, y are assigned before they are read, nfunc is reset). "
+              "gives the answer of a fresh object, and so does every call of a run of calls on one object (call history: mpts, ndim, simplex, y are assigned before they are read, nfunc is reset); "
+              "a call whose by-reference arguments are public members of objects (m.current_simplex, a row of it, m.y, the starting vector also as displacements, members of other objects) gives the answer of a fresh object on the "
+              "values the members held, and the restart idioms minimize(m.current_simplex, f), minimize(m.current_simplex[0], deltas|delta, f) never end above the fmin of the call they restart from. "
               "NOT theorems: convergence to the minimiser within the tolerance (Nelder-Mead has no such theorem; Brent's is a real-analysis result for exactly unimodal f). "
               "These clauses are decided on the implementation (S4) on the quantifier's classes: quadratic bowls with condition number up to 1e4 in 1..6 dimensions, quartic-flat, "
               "cosh-like, Morse and Lennard-Jones-like 1-D wells, random starts, scales 1e-3..1e3, tolerances 1e-3..1e-12, with the a-priori distance bounds written next to the predicates; "
               "descent and consistency are also replayed exactly (bit for bit, the objective re-evaluated in Python) on multimodal sin/cos mixtures. "
               "Also driven: 1-D bowls whose values overflow to +inf at visited points (far starts, steep bowls, repulsive walls); runs of 2..60 calls on shared objects "
-              "(every answer compared with a fresh object's, evaluation counts passing NMAX); profiled objectives F(x) = min_z g(x,z) whose evaluation runs Nelder-Mead "
+              "(every answer compared with a fresh object's, evaluation counts passing NMAX); runs in which the arguments are the objects' own or another object's public members, passed by reference "
+              "(aliasing: the restart from the reported simplex / reported point, y or the starting vector as displacements) or copied, judged on the values the members held when the call started; profiled objectives F(x) = min_z g(x,z) whose evaluation runs Nelder-Mead "
               "(fresh or reused inner object) or Find_Minimum inside the outer run (re-entrancy), judged on the values the objective returned during and after the run.")
 LEVEL_NOTE = ("Coq 8.16.1 kernel; order-theoretic theorems are axiom-free (OrdLaws: total order on the objective's values, i.e. NaN-free objectives); find_maximum_not_worse is over R; "
               "hand-written model tied by differential correspondence including the full evaluation traces (bit-identical expected); the bracketing loop of the source has no iteration cap "
               "(model fuel 1000 -> FUEL), Brent's ITMAX = 100 and Nelder-Mead's NMAX = 5000 exits are modelled as EXIT; "
-              "the model of minimize(pp) covers rectangular simplices with >= 2 vertices (others: out-of-bounds reads, not generated)")
+              "the model of minimize(pp) covers rectangular simplices with >= 2 vertices (others: out-of-bounds reads, not generated); "
+              "arguments are values in the model: a by-reference argument that is a member contributes the value the member has when the call starts (C11_Model.v 3.3b says why the code behaves so; "
+              "the harness passes the members themselves and the correspondence check compares)")
 TOL = (1e-12, 0.0)
 TRUSTED = ["objective values are assumed NaN-free in the theorems (a total order); generated objectives are finite on the explored region",
            "S4 re-evaluates the objective in Python with the same libm (math.sin/cos/exp/cosh/log/pow) to compare reported values bit for bit"]
@@ -245,6 +251,94 @@ def seq_case(rng, long_run):
     return Case(line, ("seq", "long-history" if long_run else "short-history", f"objects{nobj}"), info={"calls": infos})
 
 
+def _vsrc_txt(v):
+    if v[0] == "g": return f"g {flist(v[1])}"
+    if v[0] == "r": return f"r {v[1]} {v[2]} {v[3]}"
+    return f"y {v[1]} {v[2]}"
+
+
+def member_case(rng):
+    """arguments that ARE public members of the objects (all three overloads take non-const references; y and current_simplex are public):
+    minimize(m.current_simplex, f) - the restart from the reported simplex -, a row of a reported simplex as the starting point (the restart from the
+    reported point), m.y or the starting vector itself as the displacements, the members of ANOTHER object, each by reference or as a copy.
+    Descent, consistency and the stated initial simplex are judged on the values the members held when the call started (read from the answers of the
+    earlier calls); the convergence clause only where the request has an explicit step in the quantifier's range."""
+    tols = [1e-3, 1e-4, 1e-6, 1e-8, 1e-10, 1e-12]
+    nobj = rng.choice([1, 1, 2, 2, 3]); ftols = [rng.choice(tols) for _ in range(nobj)]
+    if nobj > 1 and rng.random() < 0.5: ftols.sort(reverse=True)             # later objects are more demanding: a hand-over continues the run
+    ncalls = rng.randint(2, 6)
+    n0 = rng.choice([1, 2, 2, 3, 3, 4, 5, 6])
+    last = [None] * nobj                                                      # per object: (dim, mpts, objective text, info) of its last returned call
+    calls = []; infos = []; kinds = set()
+
+    def bowl(n):
+        e, info = quad_nd(rng, n); return e, dict(info, n=n)
+
+    def objective_for(n, k):
+        """the objective of a call that starts from members of object k: mostly the one object k minimised last (a restart), else another one"""
+        r = rng.random()
+        if last[k] is not None and last[k][0] == n and r < 0.6: return last[k][2], last[k][3]
+        if r < 0.85: return bowl(n)
+        e, _s = multimodal_nd(rng, n); return e, {}
+
+    for c in range(ncalls):
+        have = [k for k in range(nobj) if last[k] is not None]
+        ob = rng.randrange(nobj)
+        r = rng.random()
+        if not have or r < 0.15:
+            # an ordinary request (arguments of the caller); now and then one dimension lower/higher, so that some y fits as a displacement vector
+            n = n0 if rng.random() < 0.6 else max(1, min(6, n0 + rng.choice([-1, 1])))
+            e, info = bowl(n)
+            m = n + 1
+            if rng.random() < 0.25:                                            # the starting vector itself as the displacements (one object for both arguments)
+                st = [cj + info["scale"] * rng.uniform(0.2, 3) * rng.choice([-1, 1]) for cj in info["c"]]
+                calls.append(f"{ob} nmdR g {flist(st)} s {e}"); infos.append(dict(info, ftol=ftols[ob], mu=None)); kinds.add("deltas=start")
+            else:
+                calls.append(f"{ob} {_nm_request(rng, n, e, info)}"); infos.append(dict(info, ftol=ftols[ob]))
+            last[ob] = (n, m, e, info); continue
+        k = ob if rng.random() < 0.6 and ob in have else rng.choice(have)     # whose members: the called object's own (aliasing) or another's
+        n, m, _e, kinfo = last[k]
+        byref = 1 if rng.random() < 0.75 else 0
+        if r < 0.5:
+            e, info = objective_for(n, k)
+            calls.append(f"{ob} nmS {k} {byref} {e}"); infos.append(dict(info, ftol=ftols[ob], mu=None))
+            kinds.add(("own" if k == ob else "other") + ("-simplex" if byref else "-simplex-copy"))
+            last[ob] = (n, m, e, info); continue
+        # a vector member as the starting point: a row of a reported simplex (row 0 = the reported point), or y (a vector of mpts numbers)
+        if rng.random() < 0.85:
+            i = 0 if rng.random() < 0.5 else rng.randrange(m)
+            st = ("r", k, i, byref); nd = n; kinds.add(("own" if k == ob else "other") + "-row")
+        else:
+            st = ("y", k, byref); nd = m; kinds.add("y-as-start")
+        if nd > 6: nd = None
+        if nd is None: continue
+        e, info = objective_for(nd, k) if st[0] == "r" else bowl(nd)
+        sc = info.get("scale", 1.0)
+        q = rng.random()
+        if q < 0.45:
+            delta = sc * 10 ** rng.uniform(-2, 2) * rng.choice([-1, 1])
+            calls.append(f"{ob} nm1R {_vsrc_txt(st)} {hx(delta)} {e}")
+            infos.append(dict(info, ftol=ftols[ob]) if st[0] == "r" else dict(info, ftol=ftols[ob], mu=None))
+        elif q < 0.7:
+            ds = [sc * 10 ** rng.uniform(-2, 2) * rng.choice([-1, 1]) for _ in range(nd)]
+            calls.append(f"{ob} nmdR {_vsrc_txt(st)} g {flist(ds)} {e}")
+            infos.append(dict(info, ftol=ftols[ob]) if st[0] == "r" else dict(info, ftol=ftols[ob], mu=None))
+        elif q < 0.85:
+            calls.append(f"{ob} nmdR {_vsrc_txt(st)} s {e}"); infos.append(dict(info, ftol=ftols[ob], mu=None)); kinds.add("deltas=start")
+        else:
+            fits = [k2 for k2 in have if last[k2][1] == nd]                    # an object whose y has one entry per coordinate
+            if fits:
+                k2 = rng.choice(fits)
+                calls.append(f"{ob} nmdR {_vsrc_txt(st)} y {k2} {1 if rng.random() < 0.75 else 0} {e}"); infos.append(dict(info, ftol=ftols[ob], mu=None)); kinds.add("deltas=y")
+            else:
+                # y of the wrong length: the size guard must end the process (last call of the run)
+                calls.append(f"{ob} nmdR {_vsrc_txt(st)} y {k} 1 {e}"); infos.append({"guard": True}); kinds.add("deltas=y-guard")
+                break
+        last[ob] = (nd, nd + 1, e, info)
+    line = f"seq {nobj} {' '.join(hx(t) for t in ftols)} {len(calls)} " + " ".join(calls)
+    return Case(line, ("seq", "member-arguments", f"objects{nobj}") + tuple(sorted(kinds)), info={"calls": infos})
+
+
 def nest_case(rng):
     """re-entrancy: the objective of the outer minimisation runs a minimisation itself, F(x) = min_z g(x, z);
     g(x, z) = sum_i lam_i (u_i.(x-a))^2 + sum_j m_j (z_j - b_j - w_j.(x-a))^2 + d is jointly strictly convex, so F(x) = q(x - a) + d."""
@@ -369,6 +463,8 @@ def generate(rng, tier):
     # ---- call history: several calls in one process, on one or several objects (short runs; runs whose evaluation counts pass NMAX)
     for _ in range(600 if big else 70): cs.append(seq_case(rng, False))
     for _ in range(60 if big else 6): cs.append(seq_case(rng, True))
+    # ---- arguments that are the objects' own public members (restart idioms, aliasing), by reference and by value
+    for _ in range(1500 if big else 150): cs.append(member_case(rng))
     # ---- re-entrancy: the objective itself runs a minimisation (profiled objective)
     for _ in range(500 if big else 60): cs.append(nest_case(rng))
     # ---- guard of the deltas overload (mismatched lengths must exit)
@@ -435,6 +531,16 @@ def _read_nm_request(t, v, p, op, ftol, with_f=True):
     return P, p
 
 
+def _rd_vsrc(t, v, p):
+    """a vector argument: g <list> | r <k> <i> <byref> | y <k> <byref>"""
+    w = t[p]
+    if w == "g":
+        l, p = _rd_list(v, p + 1); return ("g", l), p
+    if w == "r": return ("r", v[p + 1], v[p + 2], v[p + 3]), p + 4
+    if w == "y": return ("y", v[p + 1], v[p + 2]), p + 3
+    raise ValueError("vector source expected")
+
+
 def _parse_seq(c):
     t = c.line.split(); v = parse_vals(c.line)
     nobj = v[1]; ftols = v[2:2 + nobj]; p = 2 + nobj
@@ -445,9 +551,45 @@ def _parse_seq(c):
         if kind in ("fmin", "fmax"):
             f, q = parse(t, p + 3)
             calls.append({"op": kind, "obj": ob, "xl": v[p], "xr": v[p + 1], "tol": v[p + 2], "f": f}); p = q
+        elif kind in ("nmS", "nm1R", "nmdR"):
+            # arguments that are members of the objects: resolved against the answers of the earlier calls (_resolve_members)
+            P = {"op": kind, "obj": ob, "ftol": ftols[ob], "members": True}
+            if kind == "nmS":
+                P["ppsrc"] = (v[p], v[p + 1]); p += 2
+            else:
+                P["st"], p = _rd_vsrc(t, v, p)
+                if kind == "nm1R": P["delta"] = v[p]; p += 1
+                elif t[p] == "s": P["ds"] = "s"; p += 1
+                else: P["ds"], p = _rd_vsrc(t, v, p)
+            P["f"], p = parse(t, p)
+            calls.append(P)
         else:
             P, p = _read_nm_request(t, v, p, kind, ftols[ob]); P["obj"] = ob; calls.append(P)
     return calls
+
+
+def _resolve_members(cl, members):
+    """fills pp / start / deltas / guard of a request whose arguments are members, from the state the objects reported last
+    (members[k] = (simplex, y)); returns False when a referent does not exist"""
+    def val(src):
+        if src[0] == "g": return list(src[1])
+        st = members.get(src[1])
+        if st is None: return None
+        if src[0] == "y": return list(st[1])
+        return list(st[0][src[2]]) if 0 <= src[2] < len(st[0]) else None
+    if cl["op"] == "nmS":
+        st = members.get(cl["ppsrc"][0])
+        if st is None: return False
+        cl.update(pp=[list(r) for r in st[0]], guard=False, start=None, deltas=None); return True
+    start = val(cl["st"])
+    if start is None: return False
+    if cl["op"] == "nm1R": ds = [cl["delta"]] * len(start)
+    elif cl["ds"] == "s": ds = list(start)
+    else: ds = val(cl["ds"])
+    if ds is None: return False
+    guard = len(ds) != len(start)
+    pp = ([list(start)] + [[(x + ds[i]) if j == i else x for j, x in enumerate(start)] for i in range(len(start))]) if not guard else []
+    cl.update(pp=pp, guard=guard, start=start, deltas=ds); return True
 
 
 def _parse_seq_out(calls, v):
@@ -621,9 +763,10 @@ def _pred_nm(op, P, info, pmin, fmin, y, simplex, nfunc, trace, vals=None, fy=No
     if trace[:m] != pp: out.append((f"{op}:initial-simplex", "the first evaluations are not the vertices of the stated initial simplex"))
     ft = [f(r) for r in trace] if vals is None else vals
     if len(ft) != len(trace): out.append((f"{op}:shape", "one objective value per evaluation expected")); return out
-    f0 = ft[:m]
-    if not any(math.isnan(t) for t in f0) and fmin > min(f0):
-        out.append((f"{op}:not-worse", f"fmin = {fmin!r} is worse than the best initial vertex value {min(f0)!r}"))
+    f0 = [f(r) for r in pp] if vals is None else ft[:m]      # the objective at the vertices of the STATED initial simplex
+    if not any(math.isnan(t) for t in f0) and not math.isnan(fp) and (fmin > min(f0) or fp > min(f0)):
+        k = f0.index(min(f0))
+        out.append((f"{op}:not-worse", f"the returned point {pmin!r} has f = {fp!r} (fmin = {fmin!r}), worse than the initial vertex {k}: f({pp[k]!r}) = {f0[k]!r}"))
     if not any(math.isnan(t) for t in ft) and fmin != min(ft):
         k = ft.index(min(ft))
         out.append((f"{op}:best-of-all-evaluations", f"evaluation {k} gave {ft[k]!r}, the reported minimum is {fmin!r}"))
@@ -678,6 +821,7 @@ def _pred_seq(c, io):
         return out
     outs = _parse_seq_out(calls, parse_vals(io))
     if len(outs) != len(calls): return [("seq:shape", "one answer per call expected")]
+    members = {}                                            # object -> (simplex, y) as reported by its last call
     for k, (cl, info, o) in enumerate(zip(calls, infos, outs)):
         if cl["op"] in ("fmin", "fmax"):
             sense = 1 if cl["op"] == "fmin" else -1
@@ -689,11 +833,33 @@ def _pred_seq(c, io):
                 if not (dist <= bound) and not _flat_in_doubles(cl["f"], info, o["trace"], bound):
                     pv.append((f"{cl['op']}:converged", f"{info['kind']} bowl with minimiser {info['xstar'][0]!r}: returned {x!r}, distance {dist:.3g} > 2*tol1 + resolution = {bound:.3g}"))
         else:
-            pv = _pred_nm(cl["op"], cl, info, *o["nm"])
-            if o["same"] != 1:
-                pv.append(("seq:same-as-fresh", f"the answer differs from the answer of the same request on a fresh object (nfunc reported {o['nm'][4]}, {len(o['trace']) - len(cl['pp'])} evaluations after the initial simplex)"))
+            how = ""
+            if cl.get("members"):
+                if not _resolve_members(cl, members):
+                    out.append(("seq:shape", f"call {k + 1}: the request refers to members of an object that has not returned from a call")); break
+                how = " [" + _describe_members(cl) + "]"
+            if cl["guard"]:
+                pv = [("nmd:size-guard", f"displacements of length {len(cl['deltas'])} for a starting point of length {len(cl['start'])} were accepted")]
+            else:
+                # (signatures carry the overload, not the way its arguments were passed: the clauses and the known findings are about the overload)
+                pv = _pred_nm({"nmS": "nm", "nm1R": "nm1", "nmdR": "nmd"}.get(cl["op"], cl["op"]), cl, info, *o["nm"])
+                if o["same"] != 1:
+                    pv.append(("seq:same-as-fresh", f"the answer differs from the answer of the same request (same argument values) on a fresh object (nfunc reported {o['nm'][4]}, {len(o['trace']) - len(cl['pp'])} evaluations after the initial simplex)"))
+            pv = [(sig, msg + how) for sig, msg in pv]
+            members[cl["obj"]] = (o["nm"][3], o["nm"][2])
         out += [(sig, f"call {k + 1} of {len(calls)} (object {cl['obj']}): {msg}") for sig, msg in pv]
     return out
+
+
+def _describe_members(cl):
+    def d(src):
+        if src == "s": return "the starting vector itself"
+        if src[0] == "g": return "a vector of the caller"
+        what = f"objs[{src[1]}].current_simplex[{src[2]}]" if src[0] == "r" else f"objs[{src[1]}].y"
+        return what + (" by reference" if src[-1] else " (copy)")
+    if cl["op"] == "nmS": return f"pp = objs[{cl['ppsrc'][0]}].current_simplex" + (" by reference" if cl["ppsrc"][1] else " (copy)")
+    if cl["op"] == "nm1R": return "starting point = " + d(cl["st"])
+    return "starting point = " + d(cl["st"]) + ", displacements = " + d(cl["ds"])
 
 
 def _pred_nest(c, io):
